@@ -627,6 +627,8 @@ def gen_dir(draw, tier="quick"):
         st.sampled_from(TOL_SPECIAL),
         logfloat(1e-3, 0.1),
         st.floats(0.3, math.pi / 2),
+        # beyond a right angle every pair lies within the tolerance (no documented upper limit)
+        st.sampled_from([1.6, 2.0, 0.75 * math.pi, math.pi, 4.0]),
     )
     how = draw(st.sampled_from(["free", "sep", "sep", "overlap"]))
     if len(dirs) < 2 or not (1e-3 < minang < math.inf) or how == "free":
@@ -635,7 +637,7 @@ def gen_dir(draw, tier="quick"):
         tol = draw(st.floats(0.05, 0.999)) * minang / 2.0
     else:
         tol = min(math.pi / 2, draw(st.floats(1.001, 2.5)) * minang / 2.0)
-    tol = float(min(max(tol, 1e-3), math.pi / 2))
+    tol = float(max(tol, 1e-3)) if tol > math.pi / 2 else float(min(max(tol, 1e-3), math.pi / 2))
     # bandwidth
     if draw(st.booleans()):
         bw = None
